@@ -78,6 +78,47 @@ Proof.
     rewrite ?append_each; repeat split.
 Qed.
 
+(* Solver.maps_all_pins (lk.raise_pins): the RaiseAll clause of Wiring.step *)
+Fixpoint raise_go (l : list spin) (m : list (nat * spin)) : list (nat * spin) * option err :=
+  match l with
+  | [] => (m, None)
+  | x :: r =>
+      if existsb (fun e => spin_eqb (snd e) x) m then raise_go r m else
+      match dget Nat.eqb (auto_name x) m with
+      | Some _ => (m, Some ENameClash)
+      | None => raise_go r (m ++ [(auto_name x, x)])
+      end
+  end.
+
+Lemma raise_loop (stp : list (nat * spin) * option err -> spin -> list (nat * spin) * option err) :
+  (forall m e x, stp (m, e) x =
+      match e with
+      | Some _ => (m, e)
+      | None => if existsb (fun en : nat * spin => spin_eqb (snd en) x) m then (m, None)
+                else match dget Nat.eqb (auto_name x) m with
+                     | Some _ => (m, Some ENameClash)
+                     | None => (dset Nat.eqb (auto_name x) x m, None) end
+      end) ->
+  forall l m, fold_left stp l (m, None) = raise_go l m.
+Proof.
+  intros H.
+  assert (Stop : forall l m e, fold_left stp l (m, Some e) = (m, Some e)).
+  { induction l as [|x r IH]; intros m e; simpl; [reflexivity|]. rewrite H. apply IH. }
+  induction l as [|x r IH]; intros m; simpl; [reflexivity|]. rewrite H.
+  destruct (existsb (fun en : nat * spin => spin_eqb (snd en) x) m); [apply IH|].
+  destruct (dget Nat.eqb (auto_name x) m) eqn:E; [apply Stop|].
+  rewrite (dset_absent Nat.eqb (auto_name x) x m E). apply IH.
+Qed.
+
+Theorem maps_all_pins_src_is_step_raise (s : wstate) : maps_all_pins_src s = step s RaiseAll.
+Proof.
+  unfold maps_all_pins_src, step.
+  erewrite (raise_loop _ _ (w_free s) (w_map s)).
+  - reflexivity.
+  Unshelve. intros m e x. reflexivity.
+Qed.
+
+Print Assumptions maps_all_pins_src_is_step_raise.
 Print Assumptions add_conn_src_is_add_conn.
 Print Assumptions cut_connections_src_is_model.
 Print Assumptions add_structure_src_is_step_add.
